@@ -271,8 +271,10 @@ def run_family(f, variant=0, shape_fn=None, perm_seed=None, raw_hook=None):
     if f.L == 1:
         groups = {}
         for i, (ins, out) in enumerate(f.cases):
-            groups.setdefault(tuple(a[0] for a in ins), []).append(i)
-        for kinds, idx in sorted(groups.items()):
+            # (variant 97 - complete arrays as plain ndarrays - packs the lattice points input by input into complete and missing ones, so that complete arrays exist)
+            groups.setdefault(tuple(a[0] for a in ins) + (tuple(a[1][0][1] == 0 for a in ins) if variant == 97 else ()), []).append(i)
+        for gkey, idx in sorted(groups.items()):
+            kinds = gkey[:len(f.cases[idx[0]][0])]
             npts = len(idx)
             perm = None
             if perm_seed is not None:
@@ -495,6 +497,9 @@ def check_C06(tier):
     s = Session(chk, "C06", only_cmds=FUZZY_OPS)
     for f in fams:
         s.add_family(f, variant=core.SEED % 4, label="1-D packed")
+    for f in fams:
+        if f.n <= 2:        # the definitions are cell by cell: the same cells as a grid (column-major memory layout)
+            s.add_family(f, variant=50, shape_fn=shape_fn_for(f, 2), label="rank-2 grid")
     s.finish()
     metamorphic_fuzzy(chk, 200 if tier == "quick" else 3000)
     chk.cov["rule"] = ("TLC enumerates every lattice point (fuzzy values k/4, k=-4..4, and the missing cell) for n inputs and evaluates every operator entry "
@@ -572,6 +577,9 @@ def check_C07(tier):
     s = Session(chk, "C07", only_cmds=ARITH)
     for f in fams:
         s.add_family(f, variant=core.SEED % 4, label="1-D packed")
+    for f in fams:
+        if f.fam == "ar" and f.n <= 2 and f.L == 1:        # the same cells as a grid (column-major memory layout)
+            s.add_family(f, variant=50, shape_fn=shape_fn_for(f, 2), label="rank-2 grid")
     s.finish()
     metamorphic_arith(chk, 150 if tier == "quick" else 3000)
     chk.cov["rule"] = ("TLC enumerates every lattice point (floats k/2, k=-4..4; integers -2..2; the missing cell) for n inputs and every assignment of "
@@ -818,12 +826,13 @@ def check_C04(tier):
     np = lib()["__numpy__"]
     fams = [Family("fz", n, wide=True, laws=["FuzzyInRange"]) for n in ([1, 2] if tier == "quick" else [1, 2, 3])]
     fams += [Family("fz", 3, laws=["FuzzyInRange"]), Family("cvc", 1, laws=["FuzzyInRange"]), Family("cvc", 1, wide=True, laws=["FuzzyInRange"]),
-             Family("cva", 1, L=3, laws=["FuzzyInRange"])]
+             Family("cva", 1, L=3, laws=["FuzzyInRange"]),
+             Family("ff", 1, laws=[])]        # CvtFromFuzzy consumes fuzzy results: they must still lie in [-1, +1] afterwards
     if tier == "thorough":
         fams += [Family("cva", 1, L=4, laws=["FuzzyInRange"]), Family("fz", 4, mv=False, laws=["FuzzyInRange"])]
     gen_families(fams)
     add_tlc_runs(chk, fams)
-    s = Session(chk, "C04", only_cmds=FUZZY_PRODUCERS, clauses={"OutOfRange"})
+    s = Session(chk, "C04", only_cmds=set(FUZZY_PRODUCERS) | {"CvtFromFuzzy"}, clauses={"OutOfRange"})
     nraw = [0]
 
     def hook(f, cmd, params, arrays, res, order):
